@@ -298,6 +298,50 @@ def rule_mem_index(chk, A):
     chk.floor(R + ":type-checkers", len(type_checkers), 1)
 
 
+def rule_mem_index_mode(chk, A):
+    """a register index is packed only after the operand's offset mode (plain / pre-index / post-index) was looked at"""
+    from .must import Must
+    R = "R-INDEX-WRITEBACK-LOOKED-AT"
+    chk.rule(R, "a64 _emit: wherever Mem::index_id() is packed into an instruction, every path to that point has read the operand's offset mode "
+                "(is_pre_or_post / is_pre_index / is_post_index / is_fixed_offset / offset_mode): A64 has no pre/post-indexed register-offset "
+                "form except the post-index of the structure loads, so a path that never looks at the mode encodes `[x1, x2]!` as `[x1, x2]` "
+                "and drops the write-back")
+    emit, helpers = A["emit"], A["helpers"]
+    MODE = ("is_pre_or_post", "is_pre_index", "is_post_index", "is_fixed_offset", "offset_mode")
+    mode_helpers = {g.name for g in helpers.values() if any(x["k"] == "mcall" and x.get("cn") in MODE for x in g.ex.values())}
+
+    def elem(eid, x):
+        if x["k"] == "mcall" and x.get("cn") in MODE:
+            return ((("mode",),), ())
+        if x["k"] == "call" and x.get("callee") in mode_helpers:
+            return ((("mode",),), ())
+        return None
+    m = Must(emit, elem, None)
+    n = 0
+    par = emit.parent_map()
+    for i, x in sorted(emit.ex.items()):
+        if not (x["k"] == "mcall" and x.get("cn") == "index_id"):
+            continue
+        # packed (directly or through a local that is packed): every read of index_id() that is not a mere comparison
+        p = i
+        while p in par and (emit.e(par[p]) or {}).get("k") in ("paren", "cast"):
+            p = par[p]
+        px = emit.e(par[p]) if p in par else None
+        if px is not None and px["k"] == "binop" and px["op"] in ("==", "!=", "<", "<=", ">", ">="):
+            continue
+        st = m.before(i)
+        q = i
+        while st is None and q in par:
+            q = par[q]
+            st = m.before(q)
+        n += 1
+        chk.ob(R, "a64::_emit|index_id@%d" % n, ("mode",) in (st or frozenset()), loc=emit.loc(i),
+               detail="`%s` packs the index register of the memory operand on a path that never read the operand's offset mode: a pre- or "
+                      "post-indexed `[base, index]!` is accepted and encoded without the write-back" %
+                      " ".join(emit.text(par.get(p, p)).split())[:60], key="memindexmode|%d" % n)
+    chk.floor(R + ":sites", n, 2)
+
+
 # Arm ARM (DDI 0487) C4.1 "Data processing - register": op0:op1 bits 28..24 = 01011 with bit 21 = 0 is "Add/subtract (shifted register)", whose
 # shift field 23:22 = 11 is RESERVED; bits 28..24 = 01010 is "Logical (shifted register)", where 11 is ROR.
 def _shift_class(op):
